@@ -1491,9 +1491,13 @@ class SWAT(Command):
     def __init__(self, shx: 'Shelxfile', spline: List[str]):
         super().__init__(shx, spline)
         p, _ = self._parse_line(spline)
+        # SWAT g[0] U[2]
+        self.g = 0
+        self.U = 2
+        if len(p) > 0:
+            self.g = p[0]
         if len(p) > 1:
-            self.g = p.pop(0)
-            self.U = p.pop(0)
+            self.U = p[1]
 
 
 class LATT(Command):
